@@ -108,3 +108,18 @@ Theorem C10_translated_identity_from_file :
      end.
 Proof. exact gen_identity_from_file. Qed.
 Print Assumptions C10_translated_identity_from_file.
+
+(* ---- src/version.rs AS TRANSLATED: the wire bytes and the two signing contexts written in the source are
+   the ones reflected from the compiled code (and hence, by C10_contexts, the protocol texts') ---- *)
+Require Import RV.Proofs.CodeTag.
+Theorem C10_translated_contexts_are_reflected :
+  forall v,
+  gen_version_wire_bytes v = Ok (ver_wire v)
+  /\ gen_version_dele_prefix v = Ok (dele_prefix v)
+  /\ gen_version_sign_prefix v = Ok (srep_prefix v).
+Proof. exact gen_version_model. Qed.
+Print Assumptions C10_translated_contexts_are_reflected.
+
+Theorem C10_translated_supported_versions : gen_supported_versions_wire = Ok supported_versions_wire.
+Proof. exact gen_supported_versions_wire_model. Qed.
+Print Assumptions C10_translated_supported_versions.
